@@ -42,22 +42,22 @@ Definition rp_local_source (env : renv) (e : eid) : Prop :=
   rp_has_endpoint env e = true \/ e = rn_node env.
 
 (* the shape of a report about [b] *)
-Definition rp_shape (env : renv) (b : bundle) (now : N) (r : sreport) : Prop :=
+Definition rp_shape (env : renv) (b : bundle) (now : N) (r : rp_sreport) : Prop :=
   let p := b_pri b in
-  sr_flags r = F_ADMIN
-  /\ sr_dst r = p_rpt p
-  /\ sr_life r = RP_LIFETIME
+  rpr_flags r = F_ADMIN
+  /\ rpr_dst r = p_rpt p
+  /\ rpr_life r = RP_LIFETIME
   /\ sr_ref_src r = p_src p /\ sr_ref_time r = p_time p /\ sr_ref_seq r = p_seq p
   /\ sr_ref_frag r = (if has (p_flags p) F_FRAG then Some (p_off p, p_total p) else None)
-  /\ sr_time r = (if has (p_flags p) F_TIME then Some now else None)
-  /\ rp_local_source env (sr_src r).
+  /\ rpr_time r = (if has (p_flags p) F_TIME then Some now else None)
+  /\ rp_local_source env (rpr_src r).
 
 Definition rp_guards (env : renv) (b : bundle) : Prop :=
   has (p_flags (b_pri b)) F_ADMIN = false /\ rp_has_endpoint env (p_rpt (b_pri b)) = false.
 
 Lemma ssr_inv env rcv b now pos reason i :
   In i (rp_ssr env rcv b now pos reason) ->
-  exists r, i = IRep r /\ sr_pos r = pos /\ sr_reason r = reason /\ rp_shape env b now r /\ rp_guards env b.
+  exists r, i = IRep r /\ rpr_pos r = pos /\ rpr_reason r = reason /\ rp_shape env b now r /\ rp_guards env b.
 Proof.
   unfold rp_ssr. intros H.
   destruct (has (p_flags (b_pri b)) F_ADMIN) eqn:Ha; [destruct H|].
@@ -65,8 +65,8 @@ Proof.
   set (aa := if eid_eqb rcv DtnNone then rn_node env else rcv) in *.
   destruct (negb (rp_has_endpoint env aa) && negb (eid_eqb aa (rn_node env))) eqn:Hg; [destruct H|].
   destruct H as [H|[]]. subst i. eexists. split; [reflexivity|].
-  cbn [sr_pos sr_reason]. repeat split; auto.
-  unfold rp_local_source. cbn [sr_src].
+  cbn [rpr_pos rpr_reason]. repeat split; auto.
+  unfold rp_local_source. cbn [rpr_src].
   apply andb_false_iff in Hg. destruct Hg as [Hg|Hg]; apply negb_false_iff in Hg.
   - left; exact Hg.
   - right. apply eid_eqb_eq; exact Hg.
@@ -86,13 +86,13 @@ Definition rp_unknown_report_witness (b : bundle) (evs : list event) : Prop :=
   exists i c, In (EvUnknownBlock i (c_flags c)) evs /\ In c (b_blocks b)
               /\ known_type (c_type c) = false /\ has (c_flags c) BF_REPORT = true.
 
-Definition rp_justified (b : bundle) (evs : list event) (r : sreport) : Prop :=
+Definition rp_justified (b : bundle) (evs : list event) (r : rp_sreport) : Prop :=
   let f := p_flags (b_pri b) in
-  (sr_pos r = SP_RECEIVED /\ sr_reason r = RR_NOINFO /\ In EvReceived evs /\ has f F_RECEPTION = true)
-  \/ (sr_pos r = SP_RECEIVED /\ sr_reason r = RR_UNSUPPORTED /\ In EvReceived evs /\ rp_unknown_report_witness b evs)
-  \/ (sr_pos r = SP_FORWARDED /\ sr_reason r = RR_NOINFO /\ In EvForwarded evs /\ In (EvSend true) evs /\ has f F_FORWARD = true)
-  \/ (sr_pos r = SP_DELIVERED /\ sr_reason r = RR_NOINFO /\ In EvDelivered evs /\ has f F_DELIVERY = true)
-  \/ (sr_pos r = SP_DELETED /\ In (EvDeleted (sr_reason r)) evs /\ has f F_DELETION = true).
+  (rpr_pos r = SP_RECEIVED /\ rpr_reason r = RR_NOINFO /\ In EvReceived evs /\ has f F_RECEPTION = true)
+  \/ (rpr_pos r = SP_RECEIVED /\ rpr_reason r = RR_UNSUPPORTED /\ In EvReceived evs /\ rp_unknown_report_witness b evs)
+  \/ (rpr_pos r = SP_FORWARDED /\ rpr_reason r = RR_NOINFO /\ In EvForwarded evs /\ In (EvSend true) evs /\ has f F_FORWARD = true)
+  \/ (rpr_pos r = SP_DELIVERED /\ rpr_reason r = RR_NOINFO /\ In EvDelivered evs /\ has f F_DELIVERY = true)
+  \/ (rpr_pos r = SP_DELETED /\ In (EvDeleted (rpr_reason r)) evs /\ has f F_DELETION = true).
 
 Lemma witness_incl b evs evs' : incl evs evs' -> rp_unknown_report_witness b evs -> rp_unknown_report_witness b evs'.
 Proof. intros Hi (i & c & H1 & H2). exists i, c. split; [apply Hi; exact H1 | exact H2]. Qed.
@@ -145,7 +145,7 @@ Proof. intros E r Hr. rewrite E in Hr. destruct Hr. Qed.
 
 (* one SendStatusReport call is good when the context already justifies it *)
 Lemma good_ssr env rcv b now pre pos reason :
-  (forall r, sr_pos r = pos -> sr_reason r = reason -> rp_justified b pre r) ->
+  (forall r, rpr_pos r = pos -> rpr_reason r = reason -> rp_justified b pre r) ->
   rp_good env b now pre (rp_ssr env rcv b now pos reason).
 Proof.
   intros Hj r Hr. apply in_reports_items in Hr. apply ssr_inv in Hr.
@@ -154,7 +154,7 @@ Proof.
 Qed.
 
 Lemma good_if_ssr env rcv b now pre (c : bool) pos reason :
-  (c = true -> forall r, sr_pos r = pos -> sr_reason r = reason -> rp_justified b pre r) ->
+  (c = true -> forall r, rpr_pos r = pos -> rpr_reason r = reason -> rp_justified b pre r) ->
   rp_good env b now pre (if c then rp_ssr env rcv b now pos reason else []).
 Proof. destruct c; intros H; [apply good_ssr; auto | apply good_nil]. Qed.
 
@@ -498,25 +498,25 @@ Proof.
   - destruct J as (A & C & D). rewrite A.
     change (SP_DELETED =? SP_RECEIVED) with false. change (SP_DELETED =? SP_FORWARDED) with false.
     change (SP_DELETED =? SP_DELIVERED) with false. change (SP_DELETED =? SP_DELETED) with true. cbv iota. rewrite D.
-    cbn [rp_facts_of fa_deleted]. rewrite (existsb_in_ev rp_ev_deleted evs (EvDeleted (sr_reason r)) C eq_refl). reflexivity.
+    cbn [rp_facts_of fa_deleted]. rewrite (existsb_in_ev rp_ev_deleted evs (EvDeleted (rpr_reason r)) C eq_refl). reflexivity.
 Qed.
 
 (* what an empty checker result means: the property's clauses, stated on the facts *)
-Definition rp_property (env : renv) (b : bundle) (fa : rfacts) (r : sreport) : Prop :=
+Definition rp_property (env : renv) (b : bundle) (fa : rfacts) (r : rp_sreport) : Prop :=
   let p := b_pri b in
   let f := p_flags p in
   (* truthful and requested *)
-  ((sr_pos r = SP_RECEIVED /\ fa_received fa = true
-      /\ (if sr_reason r =? RR_UNSUPPORTED then rp_unknown_report_block b = true else has f F_RECEPTION = true))
-   \/ (sr_pos r = SP_FORWARDED /\ fa_sent_ok fa = true /\ has f F_FORWARD = true)
-   \/ (sr_pos r = SP_DELIVERED /\ fa_handed fa = true /\ has f F_DELIVERY = true)
-   \/ (sr_pos r = SP_DELETED /\ fa_deleted fa = true /\ has f F_DELETION = true))
+  ((rpr_pos r = SP_RECEIVED /\ fa_received fa = true
+      /\ (if rpr_reason r =? RR_UNSUPPORTED then rp_unknown_report_block b = true else has f F_RECEPTION = true))
+   \/ (rpr_pos r = SP_FORWARDED /\ fa_sent_ok fa = true /\ has f F_FORWARD = true)
+   \/ (rpr_pos r = SP_DELIVERED /\ fa_handed fa = true /\ has f F_DELIVERY = true)
+   \/ (rpr_pos r = SP_DELETED /\ fa_deleted fa = true /\ has f F_DELETION = true))
   (* shape *)
-  /\ has (sr_flags r) F_ADMIN = true /\ any_status_request (sr_flags r) = false
-  /\ sr_dst r = p_rpt p
+  /\ has (rpr_flags r) F_ADMIN = true /\ any_status_request (rpr_flags r) = false
+  /\ rpr_dst r = p_rpt p
   /\ sr_ref_src r = p_src p /\ sr_ref_time r = p_time p /\ sr_ref_seq r = p_seq p
   /\ sr_ref_frag r = (if has f F_FRAG then Some (p_off p, p_total p) else None)
-  /\ ((exists t, sr_time r = Some t) <-> has f F_TIME = true)
+  /\ ((exists t, rpr_time r = Some t) <-> has f F_TIME = true)
   (* no cascade *)
   /\ has f F_ADMIN = false
   /\ rp_has_endpoint env (p_rpt p) = false.
@@ -541,17 +541,17 @@ Proof.
   apply app_eq_nil in H; destruct H as [H5 H6].
   apply when_nil in H1, H2, H3, H4, H5, H6.
   split.
-  - destruct (sr_pos r =? SP_RECEIVED) eqn:E0.
+  - destruct (rpr_pos r =? SP_RECEIVED) eqn:E0.
     { apply N.eqb_eq in E0. left. apply app_eq_nil in H0. destruct H0 as [A B]. apply when_nil in A, B.
       apply negb_false_iff in A, B. split; auto. split; auto.
-      destruct (sr_reason r =? RR_UNSUPPORTED); auto. }
-    destruct (sr_pos r =? SP_FORWARDED) eqn:E1.
+      destruct (rpr_reason r =? RR_UNSUPPORTED); auto. }
+    destruct (rpr_pos r =? SP_FORWARDED) eqn:E1.
     { apply N.eqb_eq in E1. right; left. apply app_eq_nil in H0. destruct H0 as [A B]. apply when_nil in A, B.
       apply negb_false_iff in A, B. auto. }
-    destruct (sr_pos r =? SP_DELIVERED) eqn:E2.
+    destruct (rpr_pos r =? SP_DELIVERED) eqn:E2.
     { apply N.eqb_eq in E2. right; right; left. apply app_eq_nil in H0. destruct H0 as [A B]. apply when_nil in A, B.
       apply negb_false_iff in A, B. auto. }
-    destruct (sr_pos r =? SP_DELETED) eqn:E3.
+    destruct (rpr_pos r =? SP_DELETED) eqn:E3.
     { apply N.eqb_eq in E3. right; right; right. apply app_eq_nil in H0. destruct H0 as [A B]. apply when_nil in A, B.
       apply negb_false_iff in A, B. auto. }
     discriminate.
@@ -563,21 +563,21 @@ Proof.
     apply negb_false_iff in H4. apply Bool.eqb_prop in H4.
     repeat split; auto.
     + intros (t & Et). rewrite Et in H4. auto.
-    + intros Ht. rewrite Ht in H4. destruct (sr_time r); [eauto | discriminate].
+    + intros Ht. rewrite Ht in H4. destruct (rpr_time r); [eauto | discriminate].
 Qed.
 
 (* the shape statement in full, as the property file quotes it *)
 Theorem report_shape_full env inp r :
   In r (rp_reports (rp_process env inp)) ->
   let p := b_pri (i_bundle inp) in
-  has (sr_flags r) F_ADMIN = true /\ any_status_request (sr_flags r) = false
-  /\ sr_dst r = p_rpt p
+  has (rpr_flags r) F_ADMIN = true /\ any_status_request (rpr_flags r) = false
+  /\ rpr_dst r = p_rpt p
   /\ sr_ref_src r = p_src p /\ sr_ref_time r = p_time p /\ sr_ref_seq r = p_seq p
   /\ sr_ref_frag r = (if has (p_flags p) F_FRAG then Some (p_off p, p_total p) else None)
-  /\ ((exists t, sr_time r = Some t) <-> has (p_flags p) F_TIME = true)
-  /\ (forall t, sr_time r = Some t -> t = i_now inp)
-  /\ sr_pos r <= 3
-  /\ (rp_has_endpoint env (sr_src r) = true \/ sr_src r = rn_node env).
+  /\ ((exists t, rpr_time r = Some t) <-> has (p_flags p) F_TIME = true)
+  /\ (forall t, rpr_time r = Some t -> t = i_now inp)
+  /\ rpr_pos r <= 3
+  /\ (rp_has_endpoint env (rpr_src r) = true \/ rpr_src r = rn_node env).
 Proof.
   intros H p. destruct (good_process env inp r H) as (S & _ & J). cbn [app] in J.
   destruct S as (Sf & Sd & _ & S1 & S2 & S3 & S4 & S5 & S6). fold p in Sd, S1, S2, S3, S4, S5.
